@@ -54,8 +54,29 @@ KIND_SHAPES = [k for k in CKINDS if k != "o"] + ["S" + k for k in CKINDS if k !=
 PAIR_SHAPES = [a + b for a in CKINDS for b in CKINDS if a + b != "oo"] + ["fNf"]
 
 
+# items that put the statement's std::stringstream into fail()/bad():  x  (const char*)nullptr   y  (std::streambuf*)nullptr
+#   z  a user type whose operator<< sets failbit.  Before, between and after callables.
+FAILKINDS = "xyz"
+FAIL_SHAPES = ["x", "xo", "ox", "oxo", "yo", "zo", "oz"]
+FAIL_SHAPES_FULL = [q + k for q in FAILKINDS for k in CKINDS] + [k + q for q in FAILKINDS for k in CKINDS] + ["oyo", "ozo", "xSo", "Sxo", "xx"]
+# contexts a whole statement is executed in:  n straight-line code   u inside a destructor during stack unwinding
+#   c inside a catch handler   d inside a destructor on normal scope exit
+CONTEXTS = "nucd"
+
+
+def _dedup(l):
+    seen, out = set(), []
+    for x in l:
+        if x not in seen:
+            seen.add(x)
+            out.append(x)
+    return out
+
+
 def shapes_for(lg):
-    return (SHAPES + KIND_SHAPES + PAIR_SHAPES) if lg in FULL_SHAPE_LOGGERS else (REDUCED_SHAPES + KIND_SHAPES)
+    if lg in FULL_SHAPE_LOGGERS:
+        return _dedup(SHAPES + KIND_SHAPES + PAIR_SHAPES + FAIL_SHAPES + FAIL_SHAPES_FULL)
+    return _dedup(REDUCED_SHAPES + KIND_SHAPES + FAIL_SHAPES)
 
 
 _SHAPE_SETS = {}
@@ -68,7 +89,7 @@ def has_shape(lg, sh):
 
 
 def item_letter(it):
-    return it[3] if it[0] == "C" else it[0]
+    return it[3] if it[0] == "C" else it[1] if it[0] == "X" else it[0]
 
 
 GEN_SRC = "harness/gen/log_driver.cpp"
@@ -168,6 +189,8 @@ def itemw(it):
         return "S" + hx(it[1])
     if k == "N":
         return "N%d" % it[1]
+    if k == "X":
+        return "X" + it[1]
     return "C%s%d.%s" % (it[3], it[1], hx(it[2]))
 
 
@@ -185,8 +208,14 @@ def op_get(rc, k):
     return "G%s%d" % (rc, k)
 
 
-def op_one(lg, sv, tag, its):
-    return "O:%s:%d:%s:%s" % (lgw(lg), sv, tagw(tag), itemsw(its))
+def op_one(lg, sv, tag, its, ctx="n"):
+    """L::sv(tag) << its…;  executed in context ctx"""
+    return "O%s:%s:%d:%s:%s" % ("" if ctx == "n" else ctx, lgw(lg), sv, tagw(tag), itemsw(its))
+
+
+def op_local(lg, sv, tag, its, ctx="n"):
+    """{ auto s = L::sv(tag); s << its…; }  executed in context ctx"""
+    return "M%s:%s:%d:%s:%s" % ("" if ctx == "n" else ctx, lgw(lg), sv, tagw(tag), itemsw(its))
 
 
 def op_open(v, lg, sv, tag):
@@ -205,9 +234,11 @@ def op_kind(lg, sv):
     return "K:%s:%d" % (lgw(lg), sv)
 
 
-def stmt_ops(form, lg, sv, tag, its, v=0):
+def stmt_ops(form, lg, sv, tag, its, v=0, ctx="n"):
     if form == "o":
-        return [op_one(lg, sv, tag, its)]
+        return [op_one(lg, sv, tag, its, ctx)]
+    if ctx != "n" or form == "m":
+        return [op_local(lg, sv, tag, its, ctx)]
     return [op_open(v, lg, sv, tag)] + [op_put(v, i) for i in its] + [op_close(v)]
 
 
@@ -270,6 +301,8 @@ def shape_items(shape, variant=0):
             out.append(("S", ["a", "b c", ""][(p + variant) % 3] if variant else "s%d" % p))
         elif k == "N":
             out.append(("N", [7, -12, 0, 9007199254740993][(p + variant) % 4]))
+        elif k in FAILKINDS:
+            out.append(("X", k))
         else:
             out.append(("C", p + 1 + 3 * variant, "<%d>" % (p + 1), k))
     return out
@@ -279,8 +312,10 @@ TAGS = [None, "tg"]
 
 # ------------------------------------------------------------------ case generators
 
-def single_statement_space(mins=range(6)):
-    """the complete finite space of single statements (all minima x loggers x relevant thresholds x severities x forms x tag x shapes)"""
+def single_statement_space(mins=range(6), ctxs=None):
+    """the complete finite space of single statements (all minima x loggers x relevant thresholds x severities x forms x tag x shapes);
+    with ctxs: the same statements executed in a context taken in rotation from ctxs (named form = a local variable)"""
+    n = 0
     for mn in mins:
         for lg in range(len(LOGGERS)):
             for pre in threshold_settings(lg):
@@ -288,7 +323,8 @@ def single_statement_space(mins=range(6)):
                     for form in "on":
                         for tag in TAGS:
                             for sh in shapes_for(lg):
-                                yield case(mn, pre + stmt_ops(form, lg, sv, tag, shape_items(sh)))
+                                n += 1
+                                yield case(mn, pre + stmt_ops(form, lg, sv, tag, shape_items(sh), ctx=ctxs[n % len(ctxs)] if ctxs else "n"))
 
 
 def quick_deterministic():
@@ -311,6 +347,15 @@ def quick_deterministic():
                         for j, k in enumerate(CKINDS):
                             sh = k if (n + j) % 2 else "S" + k
                             yield case(mn, pre + stmt_ops(form, lg, sv, TAGS[(n + j) % 2], shape_items(sh))), "kind-grid"
+                        # a failing insertion before / between / after callables at every cell
+                        for j in range(2):
+                            sh = FAIL_SHAPES[(n + 3 * j) % len(FAIL_SHAPES)]
+                            yield case(mn, pre + stmt_ops(form, lg, sv, TAGS[(n + j) % 2], shape_items(sh))), "fail-grid"
+                        # the statement executed during stack unwinding (always) and in one of the other contexts (rotating)
+                        for ctx in ("u", "cd"[n % 2]):
+                            shs = shapes_for(lg)
+                            sh = shs[(n * 5 + 3) % len(shs)]
+                            yield case(mn, pre + stmt_ops(form, lg, sv, TAGS[n % 2], shape_items(sh), ctx=ctx)), "context-grid"
     for mn in range(6):
         for sv in range(6):
             for form in "on":
@@ -327,7 +372,9 @@ def kind_cases():
 
 
 def rand_item(rng, nid):
-    k = rng.choice("SSNCC")
+    k = rng.choice("SSSNNCCCCX")
+    if k == "X":
+        return ("X", rng.choice(FAILKINDS))
     if k == "S":
         n = rng.choice([0, 1, 1, 2, 5])
         return ("S", "".join(rng.choice("ab |:\x00\n\xff%") for _ in range(n)))
@@ -340,7 +387,10 @@ def fit(lg, its):
     """a one-expression statement must use a shape instantiated for its logger"""
     if has_shape(lg, "".join(item_letter(i) for i in its)):
         return its
-    plain = [i[:3] + ("o",) if i[0] == "C" else i for i in its]
+    plain = [i[:3] + ("o",) if i[0] == "C" else ("X", "x") if i[0] == "X" else i for i in its]
+    if has_shape(lg, "".join(item_letter(i) for i in plain)):
+        return plain
+    plain = [i for i in plain if i[0] != "X"]
     return plain if has_shape(lg, "".join(item_letter(i) for i in plain)) else plain[:2]
 
 
@@ -370,8 +420,12 @@ def rand_program(rng, mn=None):
             if rng.random() < 0.3:
                 ops.append(op_get(rng.choice(RECS), rng.randrange(2)))
         elif r < 0.45:
-            its = fit(lg, [rand_item(rng, 9) for _ in range(rng.randint(0, 3))])
-            ops.append(op_one(lg, sv, rand_tag(rng), its))
+            its = [rand_item(rng, 9) for _ in range(rng.randint(0, 3))]
+            ctx = rng.choice("nnnuucd")
+            if rng.random() < 0.7:
+                ops.append(op_one(lg, sv, rand_tag(rng), fit(lg, its), ctx))
+            else:
+                ops.append(op_local(lg, sv, rand_tag(rng), its, ctx))
         elif r < 0.6:
             v = rng.randrange(NSLOTS)
             ops.append(op_open(v, lg, sv, rand_tag(rng)))
@@ -469,15 +523,19 @@ class LogCheck(Check):
         yield from cross_record_cases()
         if tier == "quick":
             yield from quick_deterministic()
-            # every 5th statement of the complete single-statement space (5 is coprime to the inner loop sizes 118, 31, 2, 2, 6)
+            # every 11th statement of the complete single-statement space (11 is coprime to the inner loop sizes)
             for n, c in enumerate(single_statement_space()):
-                if n % 5 == 1:
-                    yield c, "stmt-stride5"
+                if n % 11 == 1:
+                    yield c, "stmt-stride11"
             nprog, nseq = 6000, 3000
         else:
             for c in single_statement_space():
                 yield c, "stmt-exhaustive"
-            nprog, nseq = 600000, 300000
+            # every other statement of the same space once more, executed in another context (rotating u, c, d; u twice as often)
+            for n, c in enumerate(single_statement_space(ctxs="uucd")):
+                if n % 2:
+                    yield c, "stmt-context"
+            nprog, nseq = 400000, 200000
         for _ in range(nprog):
             yield rand_program(rng), "program-rand"
         for _ in range(nseq):
